@@ -138,6 +138,9 @@ BUILTIN_EXC = {'RuntimeWarning', 'UserWarning', 'DeprecationWarning', 'Warning',
                'NameError'}
 
 
+VISITED = set()      # qualified names of every function of the analysed package that was interpreted in this process
+
+
 class Interp:
     def __init__(self, repo, domain=None, order=None, max_depth=8):
         self.repo = repo
@@ -285,6 +288,7 @@ class Interp:
             return r.raised
         self.depth += 1
         self.calls.append(name or fn.name)
+        VISITED.add('%s.%s' % (owner.qual if owner is not None else module.name, fn.name))
         try:
             fr = Frame(self, module, env, owner, self_obj)
             is_gen = self._is_gen.get(id(fn))
